@@ -171,6 +171,9 @@ func runC04(c *vkit.Ctx, i int, h *History, om onMode) {
 		before := vkit.TakeDigest(s.Root)
 		s.RunProcess(r, h, ro.Mode, r.IntN(2) == 0, mutate(ro.Upd), func(o Op, res StepResult) bool {
 			c.Count("readonly_calls", 1)
+			if o.Empty && res.Got == "noop" && len(res.Problems) == 0 {
+				return true
+			}
 			if res.Got != vkit.Passed {
 				stopped = true
 				cl := ""
